@@ -1,10 +1,11 @@
 /- C07 — property theorems (only). Helper lemmas: Proofs/Names.lean, Proofs/Rename.lean. -/
 import XsdataModel.Proofs.Names
+import XsdataModel.Proofs.Rename
 import XsdataModel.Py.TblEnv
 import XsdataModel.Names.TblUEnv
 
 namespace Props.C07
-open Py Xs.Text Xs.Filters Xs.Rename Proofs.Names
+open Py Xs.Text Xs.Filters Xs.Rename Proofs.Names Proofs.Rename
 
 /-! ## tables the proofs are about (regenerated from /repo on every run) -/
 
@@ -248,5 +249,80 @@ theorem safe_prefix_collision_classes : ¬ SafeNamesInjectiveOnSlugs Env.ascii U
   intro h
   exact h "None".toList "NoneType".toList "NoneType".toList "NoneType".toList
     (by decide +kernel) (by decide +kernel) (by decide +kernel) rfl
+
+/-! ## the "next free index" loops -/
+
+/-- `ClassUtils.unique_name` always terminates (the model's fuel `|reserved|+1` is never
+exhausted) and the slug of its result is not reserved — for every name and reserved set. -/
+theorem unique_name_fresh (name : Str) (R : List Str) :
+    ∃ n, uniqueName name R = some n ∧ R.contains (alnum n) = false := by
+  unfold uniqueName
+  cases hc : R.contains (alnum name)
+  · exact ⟨name, by simp, hc⟩
+  · obtain ⟨k, hk, _, hfree⟩ := firstFree_spec name R 1
+    exact ⟨indexed name k, by simp [hk], hfree⟩
+
+/-- `RenameDuplicateClasses.next_qname` terminates with an index `k ≥ 1` whose comparison key
+(`alnum` of the new name, or of the new qname) is not reserved. -/
+theorem next_qname_fresh (useNames : Bool) (ns : Option Str) (name : Str) (R : List Str) :
+    ∃ k, 1 ≤ k ∧ nextQName useNames ns name R = some (buildQName ns (indexed name k)) ∧
+      R.contains (alnum (if useNames then indexed name k else buildQName ns (indexed name k))) = false := by
+  obtain ⟨k, hk, h1, hfree⟩ := nextQNameIdx_spec useNames ns name R 1
+  exact ⟨k, h1, by simp [nextQName, hk], hfree⟩
+
+/-- `DisambiguateChoices.next_available_name` terminates with a name whose slug differs from
+the slug of every existing inner class. -/
+theorem next_available_name_fresh (name : Str) (inner : List Str) :
+    ∃ n, nextAvailableName name inner = some n ∧ (inner.map alnum).contains (alnum n) = false := by
+  unfold nextAvailableName
+  simp only []
+  cases hc : (inner.map alnum).contains (alnum name)
+  · exact ⟨name, by simp, hc⟩
+  · obtain ⟨k, hk, _, hfree⟩ := firstFree_spec name (inner.map alnum) 1
+    refine ⟨indexed name k, ?_, hfree⟩
+    simp only [if_true]
+    rw [show (inner.map alnum).length + 1 = (List.map alnum inner).length + 1 from rfl, hk]
+    rfl
+
+/-! ## rename_duplicate_attributes / RenameDuplicateClasses: the full-strength statements fail -/
+
+/-- what `RenameDuplicateAttributes` is for: afterwards no two attrs share a slug -/
+def SlugsDistinctAfterRename : Prop :=
+  ∀ attrs : List Attr, ((renameDuplicateAttrs attrs).map Attr.slug).Nodup
+
+def attrsPref : List Attr :=
+  [⟨"Element".toList, "a".toList, none⟩, ⟨"Attribute".toList, "a".toList, none⟩,
+   ⟨"Element".toList, "a_Attribute".toList, none⟩]
+
+/-- `rename_attribute_by_preference` never re-checks: element `a`, attribute `a`, element
+`a_Attribute` end as `a`, `a_Attribute`, `a_Attribute`. -/
+theorem slugs_distinct_after_rename_false : ¬ SlugsDistinctAfterRename := by
+  intro h
+  have := h attrsPref
+  revert this
+  decide +kernel
+
+/-- the generated dataclass therefore has two fields `a_attribute` -/
+theorem preference_rename_duplicate_field :
+    (renameDuplicateAttrs attrsPref).map (fun a => safeName Env.ascii UEnv.ascii fieldConv a.name) =
+      [.ok "a".toList, .ok "a_attribute".toList, .ok "a_attribute".toList] := by decide +kernel
+
+/-- a namespace whose `clean_uri` has no alphanumerics gives the renamed attr its old slug back -/
+theorem preference_rename_same_slug :
+    ((renameDuplicateAttrs [⟨"Element".toList, "a".toList, none⟩,
+        ⟨"Element".toList, "a".toList, some "http://www".toList⟩]).map Attr.slug) =
+      ["a".toList, "a".toList] := by decide +kernel
+
+def ClassKeysDistinctAfterRename : Prop :=
+  ∀ cs : List Cls, (∀ c ∈ cs, c.location = "l".toList) →
+    ((renameClasses "filenames".toList cs).map (fun q => alnum (splitQName q).2)).Nodup
+
+/-- `add_abstract_suffix` does not consult the reserved names -/
+theorem abstract_suffix_collision : ¬ ClassKeysDistinctAfterRename := by
+  intro h
+  have := h [⟨"a".toList, true, true, "l".toList⟩, ⟨"A".toList, false, false, "l".toList⟩,
+    ⟨"a_abstract".toList, false, false, "l".toList⟩] (by decide +kernel)
+  revert this
+  decide +kernel
 
 end Props.C07
